@@ -216,6 +216,9 @@ func cmdCheck(args []string) int {
 	os.RemoveAll(filepath.Join(outDir, "q"))
 	os.RemoveAll(filepath.Join(outDir, "replay", prop))
 	ts := time.Now()
+	for _, kf := range loadKnown() {
+		noRetry[kf.Obligation] = true // a listed finding is expected to fail: no second, longer attempt
+	}
 	DischargeAll(all, timeout, runtime.NumCPU())
 	var confirm map[string]int
 	if !quick {
